@@ -254,7 +254,7 @@ def main(tier):
                 ck.violation(r["name"], {"solver": r["backend"], "solver_output": r["detail"], "model": r["model"], "kind": "c09"}, reproduced=False)
     for can, oc in zip(CANARIES, outs[len(chunks):]):
         ref = oc[0] == "ok" and any(r["status"] != "proved" for r in oc[1]["results"])
-        ck.canaries.append((f"{can[0]}: {can[2][:50]!r} -> {can[3][:50]!r}", ref))
+        ck.canary(f"{can[0]}: {can[2][:50]!r} -> {can[3][:50]!r}", ref, oc)
     for f in ("jaxley.modules.network.Network._step_synapse", "jaxley.modules.network.Network._step_synapse_state", "jaxley.modules.network.Network._synapse_currents",
               "jaxley.utils.syn_utils.gather_synapes", "jaxley.utils.cell_utils.convert_point_process_to_distributed", "jaxley.modules.base.Module.step",
               "jaxley.modules.base.Module.to_jax", "jaxley.modules.base.Module.get_all_parameters", "jaxley.modules.base.Module.get_all_states"):
